@@ -109,7 +109,13 @@ def _rat_rot(q):
 GROUND = []
 for qv, sv, qw, sw, s in [((1, 2, 3, 4), 1, (2, -1, 1, 3), 1, (5, 3, 1)), ((1, 2, 3, 4), -1, (2, -1, 1, 3), 1, (5, 3, 1)),
                           ((3, 1, -2, 1), 1, (1, 1, 1, 2), -1, (7, 2, 1)), ((3, 1, -2, 1), -1, (1, 1, 1, 2), -1, (4, 3, 2)),
-                          ((1, 0, 0, 0), 1, (1, 0, 0, 0), -1, (3, 2, 1)), ((0, 1, 2, 0), -1, (5, 1, 0, 1), 1, (9, 4, 2))]:
+                          ((1, 0, 0, 0), 1, (1, 0, 0, 0), -1, (3, 2, 1)), ((0, 1, 2, 0), -1, (5, 1, 0, 1), 1, (9, 4, 2)),
+                          # rank-deficient covariances (planar / collinear point sets)
+                          ((1, 2, 3, 4), 1, (2, -1, 1, 3), -1, (5, 3, 0)), ((1, 2, 3, 4), -1, (2, -1, 1, 3), 1, (5, 3, 0)),
+                          ((3, 1, -2, 1), 1, (1, 1, 1, 2), -1, (7, 2, 0)), ((0, 1, 2, 0), -1, (5, 1, 0, 1), 1, (9, 4, 0)),
+                          ((2, 1, 0, 3), -1, (1, 3, 1, 1), 1, (6, 1, 0)), ((1, 1, 1, 1), 1, (4, 1, 2, 2), -1, (2, 1, 0)),
+                          ((1, 2, 3, 4), 1, (2, -1, 1, 3), -1, (5, 0, 0)), ((3, 1, -2, 1), -1, (1, 1, 1, 2), 1, (4, 0, 0)),
+                          ((1, 2, 3, 4), 1, (2, -1, 1, 3), 1, (5, 3, 0)), ((3, 1, -2, 1), -1, (1, 1, 1, 2), -1, (4, 0, 0))]:
     GROUND.append(([[sv * x for x in r] for r in _rat_rot(qv)], [[sw * x for x in r] for r in _rat_rot(qw)], s))
 
 
@@ -156,6 +162,8 @@ def run(ctx):
     m.np.linalg._svd_hook = svd_stub
     real_det = m.np.linalg.det
 
+    det_cache = {}
+
     def det_stub(M):
         M = np.asarray(M)
         if M.dtype == object and M.shape == (3, 3):
@@ -163,6 +171,29 @@ def run(ctx):
                 return dv
             if all(M[i, j] is W[i, j] for i in range(3) for j in range(3)):
                 return dw
+            if symx.has_sym(M):
+                # abstraction by a proven identity: det(M) == det(V)^a * s1 s2 s3 ^b * det(W)^c as polynomials
+                P = det3(M)
+                key = P.t.sexpr()
+                if key not in det_cache:
+                    det_cache[key] = P
+                    for (a, b, c) in ((1, 1, 1), (1, 0, 1), (1, 0, 0), (0, 0, 1)):
+                        cand = 1
+                        abstract = 1
+                        if a:
+                            cand, abstract = cand * det3(V), abstract * dv
+                        if b:
+                            cand, abstract = cand * S[0] * S[1] * S[2], abstract * S[0] * S[1] * S[2]
+                        if c:
+                            cand, abstract = cand * det3(W), abstract * dw
+                        sol = z3.Solver()
+                        sol.set("timeout", 20000)
+                        sol.add(P.t != Sym._lift(cand).t)
+                        if str(sol.check()) == "unsat":
+                            ctx.record("det(matrix built from v,s,w) = det(v)^%d (s1 s2 s3)^%d det(w)^%d [identity]" % (a, b, c), "holds", nontrivial=True)
+                            det_cache[key] = Sym._lift(abstract)
+                            break
+                return det_cache[key]
         return real_det(M)
 
     m.np.linalg.det = det_stub
@@ -183,10 +214,15 @@ def run(ctx):
             Av = [[float(model_value(r.model, A[i, j].t)) for j in range(3)] for i in range(N)]
             Bv = [[float(model_value(r.model, B[i, j].t)) for j in range(3)] for i in range(N)]
             ctx.violation("pts:covariance", "matrix given to SVD is not A^T B", {"A": Av, "B": Bv}, replay_points)
-        if N == 4:
-            continue
-        for p in paths:
-            _check_path(ctx, ex, p, V, W, S, dv, dw, tag)
+    # branch structure: points chosen so that the covariance *is* v.diag(s).w for the factors the stub returns
+    # (A = the three unit points, B = V.diag(S).W), which ties every quantity the code may test to v, s, w
+    A1 = np.eye(3).astype(int).astype(object)
+    B1 = np.dot(np.dot(V, np.diag(S)), W)
+    ex = Explorer(assumptions=base)
+    paths = ex.run(lambda: m.kabsch_rotation_matrix(np.array(A1, dtype=object), np.array(B1, dtype=object)))
+    ctx.add_paths(ex)
+    for p in paths:
+        _check_path(ctx, ex, p, V, W, S, dv, dw, "kabsch")
 
     # ---------------- generic lemmas (chains of solver queries)
     _lemmas(ctx, V, W, S)
@@ -277,6 +313,7 @@ def _check_path(ctx, ex, p, V, W, S, dv, dw, tag):
     # counterexample search on ground instances of the contract: pc /\ V=V0 /\ W=W0 /\ S=S0 /\ tr(R^T H) < optimum
     cov = np.dot(np.dot(V, np.diag(S)), W)
     tr = sum(np.dot(R.T, cov)[i, i] for i in range(3))
+    candidates = []
     for k, (V0, W0, s0) in enumerate(GROUND):
         d0 = int(round(float(np.linalg.det(np.array(V0, float)) * np.linalg.det(np.array(W0, float)))))
         inst = [V[i, j].t == z3.RealVal(V0[i][j]) for i in range(3) for j in range(3)]
@@ -290,8 +327,16 @@ def _check_path(ctx, ex, p, V, W, S, dv, dw, tag):
         if r == "sat":
             H = np.array(V0, float) @ np.diag([float(x) for x in s0]) @ np.array(W0, float)
             data = {"A": np.eye(3).tolist(), "B": H.tolist()}
-            if ctx.violation("pts:kabsch", "returned rotation is not the optimal proper rotation", data, replay_points):
-                return
+            candidates.append(data)
+    # LAPACK is free to return any valid factorisation, so a symbolic counterexample (some valid (v,s,w)) is replayed on
+    # several concrete covariances of that family; one reproduction on the real code suffices
+    reproduced = [d for d in candidates if replay_points(d)[0]]
+    if reproduced:
+        ctx.violation("pts:kabsch", "returned rotation is not the optimal proper rotation", reproduced[0], replay_points)
+        return
+    if candidates:
+        ctx.violation("pts:kabsch", "returned rotation is not the optimal proper rotation", candidates[0], replay_points)
+        return
     ctx.mark_inconclusive("%s:path%s" % (tag, p.decisions), "sign pattern not of the optimal form but no ground instance violates optimality")
 
 
